@@ -122,7 +122,10 @@ class Rec:
         """Vacuity guard: the path condition with all assumptions must be satisfiable."""
         m = ctx.model()
         if m is None:
-            self.vacuous += 1
+            if ctx.last_model_status == "unsat":
+                self.vacuous += 1
+            else:
+                self.inconclusive.append(f"{self.cfg.get('name')}: satisfiability of a path condition not confirmed (solver unknown)")
         else:
             self.witnessed += 1
         return m
